@@ -427,6 +427,27 @@ pub fn generate(tier: Tier, rng: &mut Rng) -> Vec<Case> {
     ] {
         push_case(&mut out, &spec, src.to_string(), None, vec!["truthiness-and-ranges"]);
     }
+    // a host function that reads the iteration variable from the scope it is called in (not from
+    // its arguments): the variable is bound for every element whether or not the body names it
+    {
+        let mut rspec = spec.clone();
+        rspec.fns.push(("cur".into(), FnSpec::Host(vec!["ftx".into(), "readvar".into()], Body::Echo)));
+        let cur = crate::sx::hex(b"cur");
+        let l = |xs: &[i64]| xs.iter().map(|x| format!("({cur} (int {x}))")).collect::<Vec<_>>().join(" ");
+        for (src, want) in [
+            ("[1, 2, 3].map(x, cur())", format!("(res (ok (list (int 1) (int 2) (int 3))) (log {}))", l(&[1, 2, 3]))),
+            ("[4, 5].filter(x, cur() > 4)", format!("(res (ok (list (int 5))) (log {}))", l(&[4, 5]))),
+            ("[1, 2].all(x, cur() > 0)", format!("(res (ok (bool 1)) (log {}))", l(&[1, 2]))),
+            ("[1, 2].exists(x, cur() == 2)", format!("(res (ok (bool 1)) (log {}))", l(&[1, 2]))),
+            ("[1, 2, 2].exists_one(x, cur() == 2)", format!("(res (ok (bool 0)) (log {}))", l(&[1, 2, 2]))),
+            ("[1, 2].map(x, cur() > 1, cur() * 10)", format!("(res (ok (list (int 20))) (log {}))", l(&[1, 2, 2]))),
+            ("[7].map(y, cur())", format!("(res (ok (list (int 100))) (log {}))", l(&[100]))),
+            ("[[1, 5], [0]].map(x, x.map(x, cur()))", format!("(res (ok (list (list (int 1) (int 5)) (list (int 0)))) (log {}))", l(&[1, 5, 0]))),
+            ("[3].map(x, [4].map(y, cur()))", format!("(res (ok (list (list (int 3)))) (log {}))", l(&[3]))),
+        ] {
+            push_case(&mut out, &rspec, src.to_string(), Some(want), vec!["variable-read-by-host-function", "no-model"]);
+        }
+    }
     // exists_one over ranges with several matches followed by further elements, some of which fail
     // or are logged: every element is visited, whatever the count so far
     for l in ["[1, 2, 3, 4, 0, 5]", "[2, 2, 2, 0]", "[5, 6, 7, 8, 9]", "[0, 3, 3, 0, 3]", "{1: 0, 2: 0, 3: 0}", "[1, 2, 3, 4, 5, 6, 7, 8]"] {
